@@ -74,6 +74,20 @@ Theorem C22_lazy_roundtrip : forall c,
 Proof. exact lazy_roundtrip. Qed.
 Print Assumptions C22_lazy_roundtrip.
 
+(* crypt filters: the reader skips decryption of a stream exactly when the writer skipped its encryption
+   (/Crypt is the sole filter), for every filter list *)
+Theorem C22_crypt_skip_agrees : forall filters,
+  read_skips_crypt filters = write_skips_crypt filters /\
+  write_skips_crypt filters = skips_crypt filters /\
+  (skips_crypt filters = true <-> filters = [nCrypt]).
+Proof.
+  intro filters. split; [apply crypt_skip_agrees|]. split; [apply write_skips_eq|].
+  unfold skips_crypt. destruct filters as [|f [|g t]]; split; intro H; try discriminate; try (inversion H; fail).
+  - apply bytes_eqb_eq in H. subst. reflexivity.
+  - inversion H; subst. apply bytes_eqb_refl.
+Qed.
+Print Assumptions C22_crypt_skip_agrees.
+
 Theorem C22_metadata_emd_false_refuted : exists d raw e raw',
   write_iobj true (encryptBytes wit_c []) (encryptStream wit_c []) false (IStream d [] raw) = Ok e /\
   type_is nMetadata d = true /\
